@@ -464,6 +464,19 @@ func (c *evalCtx) evalCall(n *ast.CallExpr) Value {
 			panic(execError{"contract: no recorded result of call " + nm})
 		}
 		return v
+	case "callarg":
+		// callarg("pkg.Recv.Fn", k, n): the n-th argument (receiver = 0) of the k-th call of a contracted function
+		if c.frame == nil {
+			panic(execError{"contract: callarg() is only available in ghost initialisers"})
+		}
+		nm := c.eval(n.Args[0]).(VStr).T.Name
+		k := c.intOf(c.eval(n.Args[1]))
+		a := c.intOf(c.eval(n.Args[2]))
+		v, ok := c.frame.callResults[fmt.Sprintf("%s#%d.arg%d", nm, k.Val.Int64(), a.Val.Int64())]
+		if !ok {
+			panic(execError{"contract: no recorded argument of call " + nm})
+		}
+		return v
 	case "atentry":
 		// atentry(e): the value of e when the innermost enclosing cut loop that has a snapshot was entered
 		if c.frame == nil || len(c.frame.entrySnap) == 0 {
